@@ -159,3 +159,10 @@ Example C03_example_restart :
   (files_size (files (w_store (w2 1000))) <=? cap (w_store (w2 1000))) = true /\
   length (index (w_store (w2 1000))) = 2%nat.
 Proof. vm_compute. repeat split; reflexivity. Qed.
+
+(* the side condition of C03_key_ignores_output is needed: for an object instrumented for coverage the output
+   name is part of the fingerprint (and for an ordinary object it is not) *)
+Example C03_example_coverage_keyed_on_output :
+  fingerprint_of (retarget rcov b_o [out obj_role b_o] 5) <> fingerprint_of rcov /\
+  fingerprint_of (retarget r0 b_o [out [111] b_o] 5) = fingerprint_of r0.
+Proof. split; [intros H; vm_compute in H; discriminate | vm_compute; reflexivity]. Qed.
